@@ -78,12 +78,17 @@ Definition run_assembles (feat : bool) (src : list N) : bool :=
 Definition path := N.
 Definition fs := path -> option (list N).
 
-(** What the operating system does with create + write_all + flush; chosen by an oracle. *)
+(** What the operating system does with [write_object_file] (since the repair F39: an absent or regular destination is
+    written to a temporary file next to it, which is then renamed over it; a device, pipe, link or directory - and a
+    destination whose directory takes no new file - is created/truncated and written directly); chosen by an oracle. *)
 Inductive write_outcome :=
-| WOk                          (* everything written *)
-| WCreateFail                  (* destination cannot be created: nothing changes *)
-| WWriteFailSpecial            (* created/opened, but the device takes no data (e.g. /dev/full) *)
-| WWriteFailTruncated (k : nat). (* regular file truncated by create, only k bytes written *)
+| WOk                          (* everything written (temporary file renamed into place, or direct write complete) *)
+| WCreateFail                  (* neither a temporary file nor the destination can be created: nothing changes *)
+| WWriteFailSpecial            (* opened, but the device takes no data (e.g. /dev/full): nothing changes *)
+| WTempFail                    (* the temporary file could not be completed or renamed: it is removed, nothing changes *)
+| WWriteFailTruncated (k : nat). (* DIRECT write of a destination that keeps its data, truncated by create, only k bytes
+                                    written: needs two faults at once - the directory refuses a new file AND the write
+                                    to the existing file fails half-way *)
 
 Definition upd (f : fs) (p : path) (v : option (list N)) : fs :=
   fun q => if q =? p then v else f q.
@@ -93,6 +98,7 @@ Definition write_file (f : fs) (dest : path) (bytes : list N) (o : write_outcome
   | WOk => (true, upd f dest (Some bytes))
   | WCreateFail => (false, f)
   | WWriteFailSpecial => (false, f)
+  | WTempFail => (false, f)
   | WWriteFailTruncated k => (false, upd f dest (Some (firstn k bytes)))
   end.
 
